@@ -630,6 +630,27 @@ fn main() {
             println!("{}", info());
             Ok(())
         }
+        Some("race") => {
+            // cold-start race: 16 threads make their first parse call at the same moment
+            let n: usize = args.get(2).and_then(|s| s.parse().ok()).unwrap_or(16);
+            let barrier = std::sync::Arc::new(std::sync::Barrier::new(n));
+            let mut hs = Vec::new();
+            for _ in 0..n {
+                let b = barrier.clone();
+                hs.push(std::thread::spawn(move || {
+                    let buf: &[u8] = b"GET /0123456789abcdefghijklmnopqrstuvwxyz0123456789abcdefghijklmnopqrstuvwxyz HTTP/1.1\r\nLong-Header-Name-For-Blocks: a-value-that-is-longer-than-thirty-two-bytes-for-avx2 \x7f\r\n\r\n";
+                    let mut headers = [httparse::EMPTY_HEADER; 4];
+                    let mut req = Request::new(&mut headers);
+                    b.wait();
+                    let r = req.parse(buf);
+                    format!("{} m={} p={}", status_str(&r), osl(req.method, buf), osl(req.path, buf))
+                }));
+            }
+            let outs: Vec<String> = hs.into_iter().map(|h| h.join().unwrap_or_else(|_| "PANIC".to_string())).collect();
+            let all_same = outs.iter().all(|o| o == &outs[0]);
+            println!("race threads={} all_same={} first=[{}] runtime={:?}", n, all_same, outs[0], httparse::_verif::runtime_feature());
+            Ok(())
+        }
         _ => {
             eprintln!("usage: hxharness run | gen <family> <tier> <seed> | info");
             std::process::exit(2);
